@@ -6,7 +6,7 @@
                             spec       : (items? rest inner_quote lone_quote)
      (4 parts (p i) ops) -> (results (p i))      DataDevice, every op executed
                             op: (1 ty) READ | (2 idx) RESTORE
-     (5 evs ops)         -> (model spec fixed)   compiled program
+     (5 evs ops)         -> (model spec fixed parts)   compiled program; parts = data section
                             ev: (0 label) | (1 items) | (2 label-in-sub)
                             op: (0 ty) READ | (1) RESTORE | (1 label) RESTORE label
    item: (0) Empty | (1 str) *)
@@ -106,7 +106,8 @@ Definition data_entry (x : sx) : sx :=
   | SL [SZ 5; SL evs; SL ops] =>
     match map_opt ev_sx evs, map_opt op_sx ops with
     | Some es, Some os =>
-      SL [sx_pres (run_prog es os); sx_sres (spec_prog es os); sx_pres (run_prog_fixed es os)]
+      SL [sx_pres (run_prog es os); sx_sres (spec_prog es os); sx_pres (run_prog_fixed es os);
+          SL (map sx_items (parts_of (group es)))]
     | _, _ => sx_bad
     end
   | _ => sx_bad
